@@ -45,6 +45,6 @@ def make_configs(rng):
 
 def main(pid, tier, seed, replay):
     import common as C
-    return P.standard_check(pid, LEVEL, tier, seed, make_configs(C.SplitMix64(seed)), 12, 200, features, proof_pid="C04", rule=
+    return P.standard_check(pid, LEVEL, tier, seed, make_configs(C.SplitMix64(seed)), 12, 200, features, proof_pid="C04+C04b", rule=
         "generated programs with non-output intermediate relations x {each switchable AST pass disabled, 3 random subsets, 3 random inline/no_inline markings "
         "(markings the semantic checker rejects are skipped)}; non-trivial = distinct program with non-empty output")
